@@ -34,6 +34,8 @@ struct HeartbeatState {
     interval: Duration,
     timeout: Duration,
     last_received: tokio::sync::Mutex<Instant>,
+    /// Signalled whenever a HeartResponse arrives
+    response: Notify,
 }
 
 /// Session manages multiple streams over a single TLS connection
@@ -126,6 +128,7 @@ impl Session {
                 interval: cfg.interval,
                 timeout: cfg.timeout,
                 last_received: tokio::sync::Mutex::new(Instant::now()),
+                response: Notify::new(),
             })
         });
 
@@ -762,6 +765,8 @@ impl Session {
                 if let Some(heartbeat_state) = &self.heartbeat {
                     let mut last = heartbeat_state.last_received.lock().await;
                     *last = Instant::now();
+                    drop(last);
+                    heartbeat_state.response.notify_waiters();
                 }
             }
             _ => {
@@ -1214,44 +1219,58 @@ impl Session {
                         break;
                     }
 
-                    let last_seen = {
-                        let guard = heartbeat_state.last_received.lock().await;
-                        Instant::now().saturating_duration_since(*guard)
+                    // Send a keep-alive request and give the peer `timeout` to answer it.
+                    // The deadline covers the write as well (it can park behind a stalled
+                    // transport) and runs from the request, not from the previous answer:
+                    // measuring "time since the last answer" at the next tick is always
+                    // about one interval, which closed healthy sessions whenever the
+                    // timeout was shorter than the interval.
+                    let sent_at = Instant::now();
+                    let exchange = async {
+                        session
+                            .write_control_frame(Frame::control(Command::HeartRequest, 0))
+                            .await?;
+                        loop {
+                            let answered = heartbeat_state.response.notified();
+                            if *heartbeat_state.last_received.lock().await >= sent_at {
+                                return Ok::<(), AnyTlsError>(());
+                            }
+                            answered.await;
+                        }
                     };
 
-                    if last_seen > heartbeat_state.timeout {
-                        tracing::warn!(
-                            session_id = session_id,
-                            elapsed_ms = last_seen.as_millis() as u64,
-                            "[Session] Heartbeat timeout detected; closing session"
-                        );
-                        if let Err(e) = session.close().await {
+                    match time::timeout_at(sent_at + heartbeat_state.timeout, exchange).await {
+                        Ok(Ok(())) => {}
+                        Ok(Err(e)) => {
                             tracing::error!(
                                 session_id = session_id,
-                                "[Session] Failed to close session after heartbeat timeout: {}",
+                                "[Session] Failed to send HeartRequest: {}",
                                 e
                             );
+                            if let Err(close_err) = session.close().await {
+                                tracing::warn!(
+                                    session_id = session_id,
+                                    "[Session] Failed to close session after heartbeat error: {}",
+                                    close_err
+                                );
+                            }
+                            break;
                         }
-                        break;
-                    }
-
-                    if let Err(e) = session
-                        .write_control_frame(Frame::control(Command::HeartRequest, 0))
-                        .await
-                    {
-                        tracing::error!(
-                            session_id = session_id,
-                            "[Session] Failed to send HeartRequest: {}",
-                            e
-                        );
-                        if let Err(close_err) = session.close().await {
+                        Err(_) => {
                             tracing::warn!(
                                 session_id = session_id,
-                                "[Session] Failed to close session after heartbeat error: {}",
-                                close_err
+                                elapsed_ms = sent_at.elapsed().as_millis() as u64,
+                                "[Session] Heartbeat timeout detected; closing session"
                             );
+                            if let Err(e) = session.close().await {
+                                tracing::error!(
+                                    session_id = session_id,
+                                    "[Session] Failed to close session after heartbeat timeout: {}",
+                                    e
+                                );
+                            }
+                            break;
                         }
-                        break;
                     }
 
                     tracing::trace!(
